@@ -107,6 +107,7 @@ OgreArc<DataType, OgreAllocatorType> {
     #[inline(always)]
     pub unsafe fn increment_references(&self, count: u32) -> &Self {
         let inner = unsafe { self.inner.as_ref() };
+        vp!("oa.inc", count);
         inner.references_count.fetch_add(count, Relaxed);
         self
     }
@@ -128,6 +129,7 @@ OgreArc<DataType, OgreAllocatorType> {
     #[inline(always)]
     pub fn references_count(&self) -> u32 {
         let inner = unsafe { self.inner.as_ref() };
+        vp!("oa.count");
         inner.references_count.load(Relaxed)
     }
 
@@ -206,6 +208,7 @@ OgreArc<DataType, OgreAllocatorType> {
     #[inline(always)]
     fn clone(&self) -> Self {
         let inner = unsafe { self.inner.as_ref() };
+        vp!("oa.clone");
         inner.references_count.fetch_add(1, Relaxed);
         Self {
             inner: self.inner,
@@ -257,12 +260,15 @@ OgreArc<DataType, OgreAllocatorType> {
     #[inline(always)]
     fn drop(&mut self) {
         let inner = unsafe { self.inner.as_mut() };
+        vp!("oa.drop.dec");
         let references = inner.references_count.fetch_sub(1, Release);
         if references != 1 {
             return;
         }
         atomic::fence(Acquire);
+        vp!("oa.drop.dealloc");
         inner.allocator.dealloc_id(inner.data_id);
+        vp!("oa.drop.free");
         let boxed = unsafe { Box::from_raw(inner) };
         drop(boxed);
     }
